@@ -579,7 +579,16 @@ func (e *Engine) callByContract(st *State, fn *ssa.Function, ct *Contract, args 
 			default:
 				ret = VTuple{acc}
 			}
-			st.addTrace(TraceEv{Kind: "ret:" + ct.Short, Pos: pos, Args: acc})
+			// snapshot of pointed-to result structs at return time (later writes through the pointer do not change it)
+			snaps := make([]Value, len(acc))
+			for si, a := range acc {
+				if p, ok := a.(VPtr); ok {
+					if sv, ok := e.load(st, p).(VStruct); ok {
+						snaps[si] = sv
+					}
+				}
+			}
+			st.addTrace(TraceEv{Kind: "ret:" + ct.Short, Pos: pos, Args: acc, Extra: snaps})
 			env := &rEnv{e: e, pre: pre, post: st, vars: copyVars(vars), typs: typs, specs: e.contracts.specs, pol: -1, assuming: true}
 			e.bindResults(env, fn, ret)
 			for _, l := range ct.Lets {
@@ -796,6 +805,9 @@ func (e *Engine) evalLoopClauses(st *State, fr *Frame, cls []Clause, iterKey str
 						continue
 					}
 					env.vars[l.Name] = v
+					if t := env.typeOf(l.Node); t != nil {
+						env.typs[l.Name] = t
+					}
 				}
 				break
 			}
@@ -912,7 +924,7 @@ func usesTrace(n *rNode, ct *Contract) bool {
 		switch n.Text {
 		case "count", "iter", "callarg", "callpos", "pushpos", "pushes", "lastpushed", "delivered", "nolocks", "held",
 			"sqlAllInTxn", "writesAllInTxn", "oneTxn", "casDrawnInTxn", "lockedThroughout", "postsAfterCommit", "stmtsScoped",
-			"tracepos", "scanned", "callret", "callrecv", "rangekey", "updkey", "updval", "cbret", "cursorWhere", "cursorOrderBy", "cursorCount", "cursorRow", "cursorId", "lenlist", "intxn":
+			"tracepos", "scanned", "callret", "callretval", "callrecv", "rangekey", "updkey", "updval", "cbret", "stmtWhereOn", "stmtParamOf", "stmtCount", "cursorWhere", "cursorOrderBy", "cursorCount", "cursorRow", "cursorId", "lenlist", "intxn":
 			return true
 		}
 	case "id":
